@@ -7,7 +7,7 @@ CONSTANTS
   MaxLen = 12
   FairOnly = FALSE
 INIT Init
-NEXT Next
+NEXT NextSim
 VIEW View
 INVARIANTS TypeOK Fairness PriorityWindow SortedUnique PowersPositive TotalBounded ProposerIsMember
 PROPERTIES NeverEmptied RejectedUpdateIsNoOp
